@@ -226,7 +226,18 @@ def rule_r1_r2(chk, p, t):
     )
     for q in (SMM, GPB):
         cls = p.cls(q)
-        for entry, init_state in (("update", "N"), ("prune", "N"), ("initialize", "R")):
+        # every other public method that (transitively) writes the weights is an exit of the same kind: a caller sees
+        # the filter between any two public calls (e.g. a pruning step added to predict)
+        extra = []
+        wi0 = WeightInterp(p, cls, [])
+        for ci in p.mro(cls):
+            for nm, mm in ci.methods.items():
+                if nm.startswith("_") or nm in ("update", "prune", "initialize") or mm.kind in ("property", "classmethod", "staticmethod"):
+                    continue
+                top = p.lookup_method(cls, nm)
+                if top is not None and top.qualname == mm.qualname and wi0.writes(mm) and nm not in [e for e, _ in extra]:
+                    extra.append((nm, "N"))
+        for entry, init_state in [("update", "N"), ("prune", "N"), ("initialize", "R")] + extra:
             m = p.lookup_method(cls, entry)
             if m is None:
                 r1.error(f"{cls.name}.{entry}", "method not found")
